@@ -201,42 +201,50 @@ def r10_4(ctx):
               "outcomes is indexed by %s at %d sites" % (names, len(idx)))
 
 
+def _command_start_literal(prog):
+    """the prefix with which LineParser::add_testcase_body starts a command: the strip_prefix literal of the command push whose
+    branch also sets the in-command flag to true"""
+    from ..cfgq import const_str_of
+    lp = prog.fn("LineParser::add_testcase_body")
+    ol = Origins(lp)
+    cmd_field = prog.field_by_type("LineParser", "Vec<String>", "command")
+    true_stores = []
+    for bi, blk in enumerate(lp.blocks):
+        if blk["cleanup"]:
+            continue
+        for st in blk["stmts"]:
+            if st["k"] == "assign" and st["lhs"]["p"] and st["rv"]["k"] == "use" and "const" in st["rv"]["op"] and st["rv"]["op"]["const"]["ty"] == "bool" \
+                    and int(st["rv"]["op"]["const"]["val"].get("bits", 0)) == 1:
+                true_stores.append(bi)
+    lits = []
+    for pb, pt in lp.calls():
+        if mname(pt) != "Vec::push" or not lp.arg_name(pt["args"][0]).endswith(cmd_field):
+            continue
+        arg = ol.operand(pt["args"][1])
+        pre = [n for n in arg.walk() if n.kind == "call" and method_name(n.a) == "str::strip_prefix"]
+        if len(pre) != 1 or pre[0].at is None:
+            continue
+        lit = const_str_of(prog, lp, pre[0].kids[1])
+        sp_block = pre[0].at[0]
+        # the branch of this strip_prefix: blocks dominated by its call block from which the push is reached
+        if any(lp.dominates(sp_block, tb) and (pb in lp.reachable(tb) or tb in lp.reachable(pb)) for tb in true_stores):
+            lits.append(lit)
+    if len(lits) != 1 or lits[0] is None:
+        raise AnchorError("LineParser::add_testcase_body: the command-start prefix could not be determined (candidates %s)" % lits)
+    return lits[0]
+
+
 def r10_8(ctx):
-    """sibling agreement parser <-> update generator on which scrut blocks hold a test case: the parser closes a test only for a
-    block with at least one code line; the generator must consume an outcome under the same condition, otherwise the n-th
-    outcome is written into the wrong block (or indexing panics) as soon as a document contains an empty scrut block"""
+    """sibling agreement parser <-> update generator on which scrut blocks hold a test case. The parser yields a test case for a block
+    iff one of its code lines starts a command (LineParser: `strip_prefix("$ ")`; a block of comments, or with nothing but an exit code
+    line, parses fine and yields none). The generator must consume an outcome under the same condition, otherwise the n-th outcome
+    is written into the wrong block and indexing runs past the end (panic)"""
+    from ..cfgq import const_str_of
     prog = ctx.prog
-    p = prog.impl_fn("MarkdownParser", "Parser", "parse")
-    op = Origins(p)
+    start = _command_start_literal(prog)
+    ctx.ok("parser-condition", prog.fn("LineParser::add_testcase_body").where(), "the parser starts a command (and with it a test case) on the prefix %r" % start)
     f = _update(prog)
     o = Origins(f)
-
-    def nonempty_guard(body, orig, bb, field):
-        """is block bb reached only when `<token>.field` is known non-empty? (is_empty()==false edge, last()/first() Some edge, len()>0)"""
-        for sb, st in switches(body):
-            be = bool_edges(body, sb)
-            if be is not None:
-                tree = cond_tree(body, sb, orig)
-                neg = False
-                while tree.kind == "un" and tree.a == "Not":
-                    neg = not neg
-                    tree = tree.kids[0]
-                if tree.kind == "call" and method_name(tree.a).endswith("is_empty") and any(n.kind == "field" and n.a == field for n in tree.walk()):
-                    edge = be[0] if neg else be[1]
-                    if bb in body.reachable(edge) and bb not in body.reachable(0, removed_edges=[(sb, edge)]):
-                        return "is_empty() == false"
-            ve, rv = variant_edges(body, sb)
-            if ve is not None and set(ve) == {"Some", "None"}:
-                d = body.single_def(rv["place"]["l"])
-                if d and d[2] == "call" and mname(d[3]) in ("slice::last", "slice::first", "Vec::last", "Vec::first") and \
-                        any(n.kind == "field" and n.a == field for n in orig.operand(d[3]["args"][0]).walk()):
-                    if bb in body.reachable(ve["Some"]) and bb not in body.reachable(0, removed_edges=[(sb, ve["Some"])]):
-                        return "last()/first() is Some"
-        return None
-    ends = [bb for bb, t in p.calls() if (callee_name(t) or "").endswith("LineParser::end_testcase")]
-    pg = [nonempty_guard(p, op, bb, "code_lines") for bb in ends]
-    ctx.check(ends and all(pg), "parser-condition", p.where(), "the parser closes a test case only for a scrut block with at least one code line (%s)" % pg,
-              "MarkdownParser::parse closes test cases unconditionally (guards: %s)" % pg)
     reads = []
     for bi, blk in enumerate(f.blocks):
         if blk["cleanup"]:
@@ -247,11 +255,46 @@ def r10_8(ctx):
                     c = f.canon_place(pl)
                     if c["l"] == 3 and any(isinstance(p_, dict) and "idx" in p_ for p_ in c["p"]):
                         reads.append(bi)
-    gg = [nonempty_guard(f, o, bb, "code_lines") for bb in sorted(set(reads))]
-    ctx.check(reads and all(gg) and all(pg), "generator-agrees", f.loc(reads[0]) if reads else f.where(),
-              "the update generator consumes an outcome only for a block with at least one code line, like the parser (%s)" % gg,
-              "the update generator consumes outcomes[testcase_index] for *every* scrut block, but the parser yields no test case for a block without code lines: "
-              "with an empty ```scrut block in the document the outcomes are written into the wrong blocks or `scrut update` panics (index out of bounds)")
+    reads = sorted(set(reads))
+
+    def command_guard(bb):
+        """bb is reached only on the true edge of `code_lines.iter().any(|line| line starts with <start>)` (or find / position .. is Some)"""
+        for sb, st in switches(f):
+            be = bool_edges(f, sb)
+            if be is None:
+                continue
+            tree = cond_tree(f, sb, o)
+            neg = False
+            while tree.kind == "un" and tree.a == "Not":
+                neg, tree = not neg, tree.kids[0]
+            hit = None
+            for n in tree.walk():
+                if n.kind == "call" and method_name(n.a) in ("Iterator::any", "Iterator::find", "Iterator::position", "Iterator::find_map") and \
+                        any(x.kind == "field" and x.a == "code_lines" for x in n.walk()):
+                    hit = n
+            if hit is None:
+                continue
+            lits = []
+            for x in hit.walk():
+                if x.kind == "agg" and isinstance(x.a, tuple) and str(x.a[0]).startswith("closure "):
+                    cb = prog.body_by_def(x.a[0][len("closure "):], f.crate)
+                    if cb is None:
+                        continue
+                    oc = Origins(cb)
+                    for cbb, ct in cb.calls():
+                        if mname(ct) in ("str::starts_with", "str::strip_prefix"):
+                            lits.append(const_str_of(prog, cb, oc.operand(ct["args"][1])))
+            edge = be[1] if neg else be[0]
+            if bb in f.reachable(edge) and bb not in f.reachable(0, removed_edges=[(sb, edge)]):
+                return lits
+        return None
+    gg = [command_guard(bb) for bb in reads]
+    good = bool(reads) and all(g is not None and g == [start] for g in gg)
+    ctx.check(good, "generator-agrees", f.loc(reads[0]) if reads else f.where(),
+              "the update generator consumes an outcome only for a block with a code line starting with %r - the parser's own criterion" % start,
+              "the update generator consumes outcomes[testcase_index] under a different condition (%s) than the parser's `some code line starts with %r`: a scrut block "
+              "that parses to no test case (empty, or holding only an exit code line like `[1]`) still takes an outcome - the outcomes are written into the wrong "
+              "blocks and `scrut update` panics (index out of bounds)" % (["no command test" if g is None else g for g in gg], start))
 
 
 def r10_5(ctx):
@@ -399,4 +442,5 @@ def run(ctx):
     ctx.run_rule("R10.10", "writer/reader fence agreement: the parser closes a block on a column-0 prefix test against the opening fence - what the writer's max_backtick_size measures (shared with C06 R6.9) [E-TABLE]", c06.r6_9, floor=3)
     ctx.run_rule("R10.8", "sibling agreement: parser and update generator agree on which scrut blocks carry a test case (non-empty code lines) [E-TABLE/E-PATH]", r10_8, floor=2)
     ctx.run_rule("R10.7", "the text a passing expectation is re-emitted from is the line as written: parse -> make -> original_string without trimming [E-FLOW]", r10_7, floor=3)
+    ctx.run_rule("R10.11", "lines verbatim: the tokenizer hands every document line on unchanged (no trim / cut), so text outside the scrut blocks and the blocks' own lines are reproduced byte for byte (shared with C06 R6.15) [E-FLOW]", c06.r6_15, floor=5)
     ctx.run_rule("R10.6", "consumed-line conservation in MarkdownIterator::next: each read line is stored once or consumed as a delimiter on every path [E-STATE by dataflow]", r10_6, floor=4)
